@@ -118,6 +118,9 @@ func (p *parser) term() types.Type {
 			return n
 		}
 		name := "N" + strconv.Itoa(len(p.nm))
+		if en, ok := e.(*types.Named); ok { // `type A B`: the underlying type of A is B's underlying type
+			e = en.Underlying()
+		}
 		n := types.NewNamed(types.NewTypeName(token.NoPos, p.pkg, name, nil), e, nil)
 		p.nm[key] = n
 		return n
@@ -298,6 +301,15 @@ func main() {
 		}
 	}
 	ssa.Initialize(ssa.InitAll)
+	func() { // load the runtime package once; without it nothing can be answered
+		defer func() {
+			if e := recover(); e != nil {
+				fmt.Fprintln(os.Stderr, "fatal:", e)
+				os.Exit(2)
+			}
+		}()
+		loadRuntime()
+	}()
 	in := bufio.NewScanner(os.Stdin)
 	in.Buffer(make([]byte, 1<<20), 1<<24)
 	w := bufio.NewWriter(os.Stdout)
